@@ -46,6 +46,8 @@ def run_check(prop: str, tier: str, root: str, known=None, evidence_path=None,
     program = Program(root)
     ctx = Ctx(prop, program, tier=tier, known=known)
     mod.run(ctx)
+    from sa import hygiene
+    hygiene.run(ctx, prop)
     extra = {}
     if tier == 'thorough' and hasattr(mod, 'run_thorough'):
         mod.run_thorough(ctx)
